@@ -458,9 +458,11 @@ func sameOutcome(w *refgraph.World, kind string, a, b entryResult, cyclic bool) 
 			return "", true
 		}
 	} else if cyclic && kind != "" {
-		if w.Unfold(w.Root, kind, av, 6) == w.Unfold(w.Root, kind, bv, 6) {
+		ua, ub := w.Unfold(w.Root, kind, av, 6), w.Unfold(w.Root, kind, bv, 6)
+		if ua == ub {
 			return "", true
 		}
+		return "outputs differ in meaning: " + clip(firstDiff(ua, ub)), false
 	}
 	return "outputs differ:\n " + clip(a.Out) + "\n " + clip(b.Out), false
 }
@@ -871,7 +873,23 @@ func runC16(c *Ctx) {
 				isoCache[string(key)] = alone
 			}
 			if msg, ok := sameOutcome(w, kindOfEntry(call.Entry), alone, got, g.Cyclic() || kindOfEntry(call.Entry) == "meta"); !ok {
-				c.Fail(Failure{Kind: "oracle", Sig: "C16:depends-on-history", What: fmt.Sprintf("call %d of history %d gives another outcome than the same call made alone in a fresh process: %s", step, h, msg), Case: cs})
+				// something learnt from an earlier call would make the call differ from its isolated run every time
+				// it is made from here on: repeat it (the shape of a cyclic expansion varies with Go's map iteration
+				// order from run to run) and report only a discrepancy that persists
+				persists := true
+				for try := 0; try < 3 && persists; try++ {
+					again := runEntry(w, call, nil, tracedLoader(w, &tracer{}, nil))
+					if _, ok2 := sameOutcome(w, kindOfEntry(call.Entry), alone, again, g.Cyclic() || kindOfEntry(call.Entry) == "meta"); ok2 {
+						persists = false
+					}
+				}
+				if persists {
+					c.Fail(Failure{Kind: "oracle", Sig: "C16:depends-on-history", What: fmt.Sprintf("call %d of history %d gives another outcome than the same call made alone in a fresh process (also when repeated): %s", step, h, msg), Case: cs,
+						Impl: got.Out, Model: alone.Out})
+				} else {
+					c.Hit("transient-discrepancy")
+					c.Res.Notes = append(c.Res.Notes, fmt.Sprintf("transient discrepancy (not repeated on retry) at call %d of history %d: %s", step, h, clip(msg)))
+				}
 			}
 			if a, b := sortedSet(alone.Loads), sortedSet(got.Loads); fmt.Sprint(a) != fmt.Sprint(b) && !g.Cyclic() {
 				c.Fail(Failure{Kind: "oracle", Sig: "C16:loads-depend-on-history", What: fmt.Sprintf("call %d of history %d requested %v from the loader; alone in a fresh process it requests %v", step, h, b, a), Case: cs})
@@ -1004,7 +1022,7 @@ func runC17(c *Ctx) {
 				continue
 			}
 			for i := range calls {
-				if msg, ok := sameOutcome(w, "schema", refs[i], got[i], cyclic); !ok {
+				if msg, ok := sameOutcome(w, "schema", refs[i], got[i], cyclic); !ok && !meansInput(w, calls[i], got[i]) {
 					c.Fail(Failure{Kind: "oracle", Sig: "C17:concurrent-result-differs", What: "an expansion sharing a cache with concurrent expansions of the same documents differs from its sequential result: " + msg, Case: cs})
 				}
 			}
@@ -1064,7 +1082,7 @@ func runC17(c *Ctx) {
 						for k := 0; k < 8; k++ {
 							j := (i + k) % len(els)
 							got := runEntryInline(w, els[j], shared, loaderFor(w, nil, nil))
-							if msg, ok := sameOutcome(w, "schema", refs[j], got, cyclic); !ok {
+							if msg, ok := sameOutcome(w, "schema", refs[j], got, cyclic); !ok && !meansInput(w, els[j], got) {
 								bad[i] = msg
 							}
 						}
@@ -1154,6 +1172,26 @@ func runC17(c *Ctx) {
 			}
 		}
 	}
+}
+
+// meansInput: the expanded element denotes the same tree (independent unfolding to depth 6) as the element it
+// was made from, in the context of its root. Two correct expansions of a cyclic element may differ from each
+// other in shape; each must still mean what the input means.
+func meansInput(w *refgraph.World, call entryCall, got entryResult) bool {
+	if got.Err != "" || got.Panic != "" || got.Hang {
+		return false
+	}
+	elem, ok := refgraph.Eval(normRootDoc(w), call.Path)
+	if !ok {
+		return false
+	}
+	out, err := wire.Parse([]byte(got.Out))
+	if err != nil {
+		return false
+	}
+	win := w.Clone()
+	win.Docs[w.Root] = normRootDoc(w)
+	return win.Unfold(w.Root, "schema", elem, 6) == win.Unfold(w.Root, "schema", out, 6)
 }
 
 // runEntryInline: runEntry without the watchdog goroutine (so that the calling goroutine is the one observed).
